@@ -657,5 +657,89 @@ class ObjectReuse(Family):
         return kind, True
 
 
+class InPlaceSubObjects(Family):
+    """(a) ONE CAddress object inside an addr / version message is framed, edited in place (IPv6 -> IPv4 -> IPv6, port,
+    services, time) and framed again: every frame is the protocol layout of the current field values.  (b) a
+    default-constructed message of every type has its sub-objects edited in place (address fields, list appends, locator
+    entries); a message default-constructed afterwards still has the default field values."""
+    name = 'inplace_subobject_edits_and_default_objects'
+    engine = 'E2'
+    nontrivial_rule = 'every case'
+
+    def cases(self, shard, tier):
+        for ch in ('mainnet', 'regtest'):
+            for t in ('addr', 'version'):
+                for order in itertools.permutations(range(3)):
+                    yield ('addr_edits', ch, t, list(order))
+        for t in P.COMMANDS:
+            yield ('defaults', 'mainnet', t, [])
+
+    def check(self, case):
+        import bitcoin.messages as M
+        kind, ch, t, order = case
+        C.select(ch)
+        if kind == 'addr_edits':
+            ips = ['2001:db8::1', '10.1.2.3', '::ffff:1.2.3.4', 'fe80::1', '255.255.255.255', '0.0.0.0']
+            ips = [ips[i] for i in order] + ips[3:]
+            if t == 'addr':
+                m = {'type': 'addr', 'addrs': [addr(ips[0], 1, 1, 5)]}
+                msg = lib_msg(m)
+                obj = msg.addrs[0]
+                slot = m['addrs'][0]
+            else:
+                m = dict(base_model('version'), addr_to=addr(ips[0], 1, 1, 0))
+                msg = lib_msg(m)
+                obj = msg.addrTo
+                slot = m['addr_to']
+            n = 0
+            for step, ip in enumerate(ips):
+                slot['ip'] = ip
+                obj.ip = ip
+                if step % 2:
+                    slot['port'] = obj.port = 1000 + step
+                else:
+                    slot['services'] = obj.nServices = 1 << step
+                if t == 'addr':
+                    slot['time'] = obj.nTime = 100 + step
+                want = P.frame(ch, ref_model(m))
+                got = msg.to_bytes()
+                n += 1
+                if got != want:
+                    raise Viol('%s message whose CAddress object was edited in place (ip now %s, step %d): frame is not that of the current field values' % (t, ip, step), want[24:90].hex(), got[24:90].hex())
+                back = parse_stream(io.BytesIO(got))
+                if back is None or model_of_msg(back) != norm(m):
+                    raise Viol('%s message after in-place address edits does not parse back to the current values' % t, None, None)
+            return kind, True, n
+        # default-constructed objects
+        cls = getattr(M, 'msg_' + t)
+
+        def default_model():
+            d = model_of_msg(cls())
+            d.pop('time', None)
+            d.pop('nonce', None)
+            return d
+        before = default_model()
+        a = cls()
+        src = lib_msg(base_model(t))
+        for k, v in list(vars(a).items()):
+            sv = vars(src).get(k)
+            if isinstance(v, list):
+                v.extend(sv if isinstance(sv, list) and sv else [v[0]] if v else [])
+                if not v and isinstance(sv, list):
+                    other = lib_msg(model_for(t, [(points(t)[0][0], points(t)[0][1][0])]) or base_model(t))
+                    v.extend(vars(other).get(k) or [])
+            elif hasattr(v, 'ip') and hasattr(v, 'port'):
+                v.ip, v.port, v.nServices = '9.9.9.9', 999, 77
+            elif hasattr(v, 'vHave'):
+                v.vHave.append(b'\x77' * 32)
+                v.nVersion = 12345
+            elif hasattr(v, 'vchMsg'):
+                v.vchMsg = b'edited'
+        after = default_model()
+        if after != before:
+            raise Viol('a default-constructed %s message differs after the sub-objects of ANOTHER default-constructed one were edited in place' % t, before, after)
+        return kind, True
+
+
 def families(tier):
-    return [Messages(), Streams(), FrameFaults(), ChainFramingHistories(), ObjectReuse()]
+    return [Messages(), Streams(), FrameFaults(), ChainFramingHistories(), ObjectReuse(), InPlaceSubObjects()]
